@@ -120,20 +120,25 @@ def saveOpsBackupFirst (new : Bytes) : List FsOp :=
 inductive LoadResult (Reg : Type) where
   | ok (r : Reg)      -- `load` into an empty dict left exactly this registry
   | readError         -- `PersistenceReadError`
+  | other             -- neither: another exception escapes, or the file is outside the modelled text fragment
   deriving DecidableEq, Repr
 
 /-- What C15 needs to know about `Persistence.load` / the text `save` writes.
+* `ok`: the registries the laws speak about — those `save` can write and `load` reproduces
+  (C13's hypothesis; `True` for the toy loader);
 * `load_empty`: `json.loads(read or "{}")` — an empty file loads as the empty registry;
 * `load_dump`: a saved registry loads back (C13);
 * `prefix_error`: a non-empty strict prefix of a dumped text is not valid JSON (the text is one
-  `{…}` object, so every proper prefix has an unclosed brace) — a read error. -/
+  `{…}` object, so every proper prefix has an unclosed brace) — a read error.
+`C15.realLoader` instantiates it with the modelled `json.dumps` / `json.loads` / schema load. -/
 structure Loader (Reg : Type) where
   load : Bytes → LoadResult Reg
   dump : Reg → Bytes
   empty : Reg
+  ok : Reg → Prop := fun _ => True
   load_empty : load [] = .ok empty
-  load_dump : ∀ r, load (dump r) = .ok r
-  prefix_error : ∀ r p, p <+: dump r → p ≠ [] → p ≠ dump r → load p = .readError
+  load_dump : ∀ r, ok r → load (dump r) = .ok r
+  prefix_error : ∀ r p, ok r → p <+: dump r → p ≠ [] → p ≠ dump r → load p = .readError
 
 /-- Loading the live file of a file system.  A missing file is the `FileNotFoundError` branch of
 `load`: the registry stays empty (and an empty registry is saved). -/
